@@ -61,17 +61,24 @@ Proof.
 Qed.
 Print Assumptions C07_goose_dbmate_line_filter_refuted.
 
-(** Liquibase: a multi-line reverse statement leaks out of its --rollback comment into the up
-    statements; the empty plan is read as one statement. *)
-Theorem C07_liquibase_rollback_refuted :
-  (exists now p, List.length (p_changes p) = 1%nat /\ exists a b, roundtrip FLiquibase opts_postgres now p = Some [a; b])
-  /\ roundtrip FLiquibase opts_postgres [] (mkPlan [] [] [] [] []) <> Some [].
+(** Liquibase: the empty plan is read as one statement (the header line has no newline after it,
+    and the scanner does not treat an unterminated "--" as a comment).  The second Liquibase
+    defect found here — a multi-line reverse statement leaking out of its --rollback comment into
+    the up statements — was repaired in the tree under test (ae3e356): witness of the repaired
+    behaviour below; the round trip (C07_roundtrip_tools_except) no longer constrains the reverse
+    statements. *)
+Theorem C07_liquibase_empty_refuted :
+  roundtrip FLiquibase opts_postgres [] (mkPlan [] [] [] [] []) <> Some []
+  /\ (exists now p, List.length (p_changes p) = 1%nat
+                    /\ existsb (fun c => existsb (fun r => negb (comment_ok r)) (c_reverse c)) (p_changes p) = true
+                    /\ roundtrip FLiquibase opts_postgres now p = planned opts_postgres semi p).
 Proof.
   split.
-  - exists (bs "20240101000000"%string), w_liquibase_plan. split; [reflexivity|]. eexists; eexists. exact liquibase_rollback_refuted.
   - rewrite liquibase_empty_refuted. discriminate.
+  - exists (bs "20240101000000"%string), w_liquibase_plan. split; [reflexivity|]. split; [vm_compute; reflexivity|].
+    rewrite liquibase_rollback_repaired. vm_compute. reflexivity.
 Qed.
-Print Assumptions C07_liquibase_rollback_refuted.
+Print Assumptions C07_liquibase_empty_refuted.
 
 (** formatValues (MySQL enum/set values) does not escape at all; the MySQL scanner treats a
     backslash inside a back-quoted identifier as an escape; already-quoted inputs are passed
@@ -197,15 +204,13 @@ Proof. repeat split; vm_compute; reflexivity. Qed.
 
 (** golang-migrate and Flyway up files (their File types are not *LocalFile: migrate.FileStmts falls
     back to the generic migrate.Stmts) and Liquibase files (LocalFile: the dialect's scanner).
-    Liquibase needs what C07_liquibase_rollback_refuted shows to be necessary: a non-empty plan and
-    newline-free reverse statements. *)
+    Liquibase needs what C07_liquibase_empty_refuted shows to be necessary: a non-empty plan. *)
 Theorem C07_roundtrip_tools_except : forall o now p,
   (Forall (fun c => scan_closed opts_generic semi (c_cmd c) = true /\ comment_ok2 (c_comment c) = true) (p_changes p) ->
      roundtrip FGolangMigrate o now p = planned opts_generic semi p
      /\ roundtrip FFlyway o now p = planned opts_generic semi p)
   /\ (GoCommand o = false -> comment_ok now = true -> p_changes p <> [] ->
-      Forall (fun c => scan_closed o semi (c_cmd c) = true /\ comment_ok (c_comment c) = true /\
-                       Forall (fun r => comment_ok r = true) (c_reverse c)) (p_changes p) ->
+      Forall (fun c => scan_closed o semi (c_cmd c) = true /\ comment_ok (c_comment c) = true) (p_changes p) ->
       roundtrip FLiquibase o now p = planned o semi p).
 Proof.
   intros o now p. split.
@@ -218,8 +223,7 @@ Proof.
 Qed.
 Print Assumptions C07_roundtrip_tools_except.
 Example C07_roundtrip_tools_nonvacuous :
-  forallb (fun c => scan_closed opts_generic semi (c_cmd c) && comment_ok2 (c_comment c)
-                    && forallb comment_ok (c_reverse c)) (p_changes ex_tool_plan) = true
+  forallb (fun c => scan_closed opts_generic semi (c_cmd c) && comment_ok2 (c_comment c)) (p_changes ex_tool_plan) = true
   /\ roundtrip FLiquibase opts_postgres (bs "20240101000000"%string) ex_tool_plan
       = Some [bs "CREATE TABLE ""t;"" (c text DEFAULT 'a''b;');"%string].
 Proof. split; vm_compute; reflexivity. Qed.
